@@ -9,7 +9,7 @@ from __future__ import annotations
 import ast
 
 from ..core import AnalysisError, read_elements_yaml, dotted
-from ..lexmodel import LexModel, ANY
+from ..lexprobe import LexProbe
 from ..pe import Interp, PRaise
 from ..templates import table_keys_with_nodes, Gen
 
@@ -156,20 +156,21 @@ def check(chk, repo, tier):
     in_cp("parse.BREAK_CHARACTER", brk, PF)
     in_cp("parse.RECURSE_CHARACTER", rec, PF)
 
-    # (4) every key lexes as exactly one GENERAL token
-    lm = LexModel(repo, it)
+    # (4) every key lexes as exactly one GENERAL token (the current tokenise is
+    # interpreted on the key itself)
+    lp = LexProbe(repo, it)
     LF = repo.mod("lexer").rel
-    chk.floor("lexer head branches", len(lm.branches), 8)
-    chk.unit("lexer branches", [
-        {"line": b.line,
-         "heads": "<other>" if b.chars is ANY else "".join(sorted(b.chars)),
-         "kinds": b.kinds, "digraph": b.is_digraph} for b in lm.branches])
-    dig = [b for b in lm.branches if b.is_digraph]
-    if not dig:
-        raise AnalysisError("anchor vanished: digraph branch of the lexer")
+    dig_heads = lp.digraph_heads()
+    chk.unit("digraph heads (by probing)", "".join(sorted(
+        h for h in dig_heads if len(h) == 1)))
+    if not [h for h in dig_heads if len(h) == 1]:
+        raise AnalysisError("no digraph head found by probing the lexer")
+    chk.unit("token kinds by head", {
+        k: "".join(sorted(x for x in lp.heads_of(k) if len(x) == 1))[:40]
+        for k in lp.kinds if k != "GENERAL"})
 
     def one_token(construct, key, where, line=None):
-        ok, why = lm.lex_key(key)
+        ok, why = lp.lexes_as_one_general(key)
         chk.ob("C20.lexes-as-one-token", construct, ok,
                f"{key!r} is not scanned as one GENERAL token: {why}",
                where, line, sample={"key": key, "why": why})
@@ -289,7 +290,7 @@ def check(chk, repo, tier):
         elif key not in table and key not in syntax and len(key) <= 2 \
                 and not bad:
             chk.ob("C20.documented-element-exists", f"yaml[{key!r}]",
-                   _is_literal_syntax(key, lm),
+                   _is_literal_syntax(key, lp),
                    f"documented element {key!r} is neither in the element "
                    "table nor structure/literal syntax", YF, r["line"])
 
@@ -298,13 +299,11 @@ def check(chk, repo, tier):
     if tier == "thorough":
         n = 0
         keys2 = {k for k, _, _ in el_entries if len(k) == 2}
-        heads = set()
-        for b in dig:
-            heads |= b.chars
+        heads = {h for h in dig_heads if len(h) == 1}
         for a in codepage:
             for b2 in codepage:
                 n += 1
-                ok, _ = lm.lex_key(a + b2)
+                ok, _ = lp.lexes_as_one_general(a + b2)
                 if (a + b2) in keys2:
                     chk.ob("C20.exhaustive-two-char", f"{a + b2!r}", ok,
                            "table key does not lex as one token", LF)
@@ -333,14 +332,16 @@ def check(chk, repo, tier):
     chk.assumptions += [
         "elements.yaml keeps its regular '- element:' / two-space 'arity:' "
         "layout (read without a YAML library)",
-        "lexer.tokenise keeps the head if/elif dispatch shape (otherwise the "
-        "run fails closed with ANALYSIS-ERROR)",
+        "the lexer is represented by interpreting its current source on the "
+        "keys themselves (vystatic.pe subset; otherwise ANALYSIS-ERROR)",
     ]
 
 
-def _is_literal_syntax(key, lm: LexModel) -> bool:
-    br = lm.branch_for(key[0])
-    return br.chars is not ANY  # claimed by a literal / comment / digraph head
+def _is_literal_syntax(key, lp) -> bool:
+    """the first character starts a literal / comment / digraph"""
+    r = lp.run(key[0] + lp.other)
+    return not (isinstance(r, list) and len(r) == 2
+                and r[0] == ("GENERAL", key[0]))
 
 
 def _special_cased_modifiers(repo) -> set[str]:
